@@ -163,7 +163,7 @@ def mixed_dtype_case(ctx: Ctx, stream: str, i: int) -> None:
     integer or wide-float axis next to a float16 one, Python numbers, NumPy arrays) and an axis may be longer than what
     a narrow float can count (2048 for float16): each coordinate must be rounded in the dtype it came in"""
     rng = ctx.rng(stream, i)
-    if i % 4 == 3:
+    if i % 3 == 0:          # (3 is coprime to the number of workers: both 64-bit modes get such cases)
         # INTEGER coordinates on an axis longer than 2**24: an integer is its own nearest pixel, whatever float32 can hold
         n = 2 ** 25 + 8
         land = make_landscape((n,))
